@@ -193,7 +193,7 @@ let handle (x : Sexp.t) : string =
            let text_problem = ref None in
            let predicted (asys : sys) (nmA : (expr * char list) list) (impl_text : string option) (what : string) =
              if not small then None
-             else match serialize_named asys nmA with
+             else match serialize_named_v writer_variant asys nmA with
                | POk lines ->
                    (match impl_text with
                     | Some t -> (match text_diff lines (text_lines t) with
@@ -234,13 +234,28 @@ let handle (x : Sexp.t) : string =
                    | Some (_, _, _, false) -> note "names:lost:input"
                    | Some (k, a, b, true) ->
                        let sym = List.nth s1.i_inputs k in
-                       if List.mem sym roots then note "names:inputs:referenced-by-label"
+                       (* an input that carries the name of an output referring to it directly (a state without init/next that the
+                          output line named): the writer cannot put the name on the declaration without renaming the output, and the
+                          reader keeps the default name of an input that is also an output on purpose (regression tests of the
+                          repository: parse_sha3_keccak_and_check_that_all_anonymous_inputs_are_there) *)
+                       if List.exists (fun (n, e) -> e = sym && big_ocamlstr n = a) s1.i_outputs then note "names:inputs:same-name-as-output"
+                       else if List.mem sym roots then note "names:inputs:referenced-by-label"
                        else if String.contains a '$' then note "names:inputs:dollar-cleanup"
                        else if drift a b then note "names:inputs:suffix-drift" else note "names:inputs:other"
                    | None -> ());
                   (match first_diff st1 st2 ps with
                    | Some (_, _, _, false) -> note "names:lost:state"
-                   | Some (_, a, b, true) -> if String.contains a '$' then note "names:states:dollar-cleanup" else if drift a b then note "names:states:suffix-drift" else note "names:states:other"
+                   | Some (k, a, b, true) ->
+                       let (sym, _, _) = List.nth s1.i_states k in
+                       (* with patches/0008 the writer has no alias line for an array: an array state that an output refers to
+                          directly takes the output's name, as it did before the alias lines existed *)
+                       if writer_variant.w_no_array_alias && (match type_of (g1 sym) with TArr _ -> true | _ -> false) && List.mem sym roots
+                       then note "names:states:array-referenced-by-label"
+                       else if String.contains a '$' then note "names:states:dollar-cleanup"
+                       else if drift a b && List.exists (fun p -> String.length a > String.length p && String.sub a 0 (String.length p) = p)
+                                 ["_state_"; "_input_"; "_output_"; "_bad_"; "_constraint_"]
+                       then note "names:states:default-name-collision"
+                       else if drift a b then note "names:states:suffix-drift" else note "names:states:other"
                    | None -> ());
                   (match first_diff o1 o2 po with
                    | Some (_, _, _, false) -> note "names:lost:output"
